@@ -28,6 +28,7 @@ type regOp struct {
 	ViaVar bool        `json:"via_var,omitempty"` // receiver and arguments as variables
 	ViaTpl bool        `json:"via_tpl,omitempty"` // through a loaded template's String
 	BadRet bool        `json:"bad_ret,omitempty"` // (arr) registered function returns a value of an unsupported kind
+	Place  string      `json:"place,omitempty"`   // via_tpl: where the call stands: page | component | slot | insert
 }
 
 func (o regOp) String() string {
@@ -361,14 +362,23 @@ func (m *regModel) call(op regOp) string {
 		if typ == "arr" {
 			gotOut, gotErr = render(viaCall.String(), data)
 		} else {
-			tr := tree.Tree{"t/page.tw": {Content: "{{ x = " + call + " }}[{{ x }}]"}}
+			body := "{{ x = " + call + " }}[{{ x }}]"
+			tr := tree.Tree{"t/page.tw": {Content: body}}
+			switch op.Place {
+			case "component":
+				tr = tree.Tree{"t/page.tw": {Content: "@component(\"comp\");"}, "t/comp.tw": {Content: body}}
+			case "slot":
+				tr = tree.Tree{"t/page.tw": {Content: "@component(\"comp\")\n@slot" + " " + body + "@end\n@end;"}, "t/comp.tw": {Content: "@slot"}}
+			case "insert":
+				tr = tree.Tree{"t/page.tw": {Content: "@use(\"~l\")@insert(\"r\")" + body + "@end"}, "t/layouts/l.tw": {Content: "@reserve(\"r\")"}}
+			}
 			tree.Materialise(tr)
 			tpl, err := textwire.NewTemplate(&config.Config{TemplateDir: "t", TemplateExt: ".tw"})
 			if err != nil {
 				return "loading templates failed: " + err.Error()
 			}
 			out, ferr := tpl.String("page", data)
-			gotOut = out
+			gotOut = strings.TrimSuffix(strings.TrimPrefix(out, " "), ";")
 			if ferr != nil {
 				gotErr = ferr.String()
 			}
@@ -461,7 +471,8 @@ func genRegOp(rt *rapid.T) regOp {
 	for i := range args {
 		args[i] = toModelJSON(c20Arg(rt))
 	}
-	return regOp{Kind: "call", Name: name, Recv: &recv, Args: args, ViaVar: rapid.Bool().Draw(rt, "viaVar"), ViaTpl: rapid.IntRange(0, 3).Draw(rt, "viaTpl") == 0}
+	return regOp{Kind: "call", Name: name, Recv: &recv, Args: args, ViaVar: rapid.Bool().Draw(rt, "viaVar"), ViaTpl: rapid.IntRange(0, 2).Draw(rt, "viaTpl") == 0,
+		Place: rapid.SampledFrom([]string{"page", "component", "slot", "insert"}).Draw(rt, "place")}
 }
 
 func c20NonTrivial(ops []regOp) bool {
@@ -543,6 +554,7 @@ func TestC20_HistoriesEnum(t *testing.T) {
 		{Kind: "call", Name: "f", Recv: &s}, {Kind: "call", Name: "f", Recv: &i, Args: mj(refint.IntV(1), refint.StrV("a"))},
 		{Kind: "call", Name: "f", Recv: &a, Args: mj(refint.ArrV([]V{refint.IntV(2)}), refint.ObjV(map[string]V{"k": refint.NilV()})), ViaVar: true},
 		{Kind: "call", Name: "upper", Recv: &s}, {Kind: "call", Name: "f", Recv: &f}, {Kind: "call", Name: "f", Recv: &s, ViaVar: true, ViaTpl: true},
+		{Kind: "call", Name: "f", Recv: &i, ViaTpl: true, Place: "component"}, {Kind: "call", Name: "f", Recv: &s, ViaTpl: true, Place: "slot"},
 	}
 	maxLen := 3
 	idx := 0
